@@ -350,6 +350,24 @@ func (m *metadataAPI) CreateStream(ctx context.Context, req *proto.CreateStreamO
 		return status.New(codes.InvalidArgument, "no partitions provided")
 	}
 
+	// The request may have been propagated to us, so make sure the partitions
+	// belong to the stream and their ids are unique. Otherwise the operation
+	// would be committed and then fail to apply on every server or open the
+	// log of another stream's partition.
+	ids := make(map[int32]struct{}, len(req.Stream.Partitions))
+	for _, partition := range req.Stream.Partitions {
+		if partition.Stream != req.Stream.Name {
+			return status.Newf(codes.InvalidArgument,
+				"partition %d belongs to stream %s, not %s",
+				partition.Id, partition.Stream, req.Stream.Name)
+		}
+		if _, ok := ids[partition.Id]; ok {
+			return status.Newf(codes.InvalidArgument,
+				"duplicate partition %d", partition.Id)
+		}
+		ids[partition.Id] = struct{}{}
+	}
+
 	for _, partition := range req.Stream.Partitions {
 		// Select replicationFactor nodes to participate in the partition.
 		replicas, st := m.getPartitionReplicas(partition.ReplicationFactor)
@@ -2014,8 +2032,7 @@ func (m *metadataAPI) waitForPartitionLeader(ctx context.Context, partition *pro
 // checkCreateStreamPreconditions checks if the stream to be created already
 // exists. If it does, it returns ErrStreamExists. Otherwise, it returns nil.
 func (m *metadataAPI) checkCreateStreamPreconditions(op *proto.RaftLog) error {
-	partitions := op.CreateStreamOp.Stream.Partitions
-	if stream := m.GetStream(partitions[0].Stream); stream != nil {
+	if stream := m.GetStream(op.CreateStreamOp.Stream.Name); stream != nil {
 		return ErrStreamExists
 	}
 	return nil
